@@ -320,8 +320,8 @@ package tengo
 //@              ==> v.curFrame == it0(v.curFrame) && v.curInsts == it0(v.curInsts)
 //@   loop 0 let callee = v.stack[v.sp-1-int(v.curInsts[v.ip+2])]
 //@   loop 0 let nargs = int(v.curInsts[v.ip+2])
-//@   loop 0 step tail_no_overflow{C16,C06}: exited && op == parser.OpCall && v.curInsts[v.ip+3] == 0 && is(callee, *CompiledFunction)
-//@                  && callee == v.curFrame.fn && !callee.(*CompiledFunction).VarArgs && nargs == callee.(*CompiledFunction).NumParameters
+//@   loop 0 step tail_no_overflow{C16,C06}: exited && op == parser.OpCall && it0(v.curInsts[v.ip+3] == 0 && is(callee, *CompiledFunction)
+//@                  && same(callee, v.curFrame.fn) && !callee.(*CompiledFunction).VarArgs && nargs == callee.(*CompiledFunction).NumParameters)
 //@                  && (nextop == parser.OpReturn || (nextop == parser.OpPop && nextop2 == parser.OpReturn))
 //@              ==> v.err != ErrStackOverflow
 //@   loop 0 step tail_params{C16}: continued && op == parser.OpCall && v.framesIndex == it0(v.framesIndex) && v.ip == -1
